@@ -14,9 +14,12 @@ import (
 	"encoding/json"
 	"fmt"
 	"io"
+	"math"
+	"runtime/debug"
 	"sort"
 	"strings"
 	"testing"
+	"time"
 
 	"codeberg.org/TauCeti/mangle-go/ast"
 	"codeberg.org/TauCeti/mangle-go/factstore"
@@ -85,17 +88,52 @@ type Case struct {
 	// Long > 0 adds the predicate long_value/1 with the single fact long_value("xxx…x") whose string
 	// has Long characters (kept out of Preds so that replay files and samples stay small).
 	Long int `json:"long,omitempty"`
+	// Bulk > 0 adds the predicate bulk_fact/2 with the Bulk facts bulk_fact(i, "row-<i>-…") (many
+	// short lines instead of one long line; also kept out of Preds).
+	Bulk int `json:"bulk,omitempty"`
+	// Zstd (only with Comp == "zstd"): the plain bytes WriteTo produced are compressed by an encoder
+	// configured in another way than the default one.
+	Zstd *ZstdOpts `json:"zstd,omitempty"`
 }
 
-const longSym = "long_value"
+// ZstdOpts configures the zstd encoder of a case ("written ... zstd" quantifies over every valid
+// zstd stream that holds the file, not only over the default settings of one encoder).
+type ZstdOpts struct {
+	WindowLog  int  `json:"window_log"`            // window size 1 << WindowLog (10..27)
+	Level      int  `json:"level"`                 // 1 fastest, 2 default, 3 better, 4 best
+	Stream     bool `json:"stream,omitempty"`      // streaming Writer (else one EncodeAll call)
+	Single     int  `json:"single,omitempty"`      // EncodeAll: 0 encoder's choice, 1 single segment, 2 not
+	ZeroFrames bool `json:"zero_frames,omitempty"` // WithZeroFrames
+	NoCRC      bool `json:"no_crc,omitempty"`      // no content checksum
+	Chunk      int  `json:"chunk,omitempty"`       // Stream: size of the Write calls (0: one call)
+}
+
+const (
+	longSym = "long_value"
+	bulkSym = "bulk_fact"
+)
+
+func bulkFact(i int) []val.V {
+	return []val.V{val.I(int64(i)), val.S(fmt.Sprintf("row-%d-%s", i, strings.Repeat("abcdefghij", 14+i%7)))}
+}
 
 // expanded returns the case with the long_value predicate spelled out.
 func (c Case) expanded() Case {
-	if c.Long <= 0 {
+	if c.Long <= 0 && c.Bulk <= 0 {
 		return c
 	}
 	e := c
-	e.Preds = append(append([]Pred{}, c.Preds...), Pred{Sym: longSym, Arity: 1, Facts: [][]val.V{{val.S(strings.Repeat("x", c.Long))}}})
+	e.Preds = append([]Pred{}, c.Preds...)
+	if c.Long > 0 {
+		e.Preds = append(e.Preds, Pred{Sym: longSym, Arity: 1, Facts: [][]val.V{{val.S(strings.Repeat("x", c.Long))}}})
+	}
+	if c.Bulk > 0 {
+		p := Pred{Sym: bulkSym, Arity: 2}
+		for i := 0; i < c.Bulk; i++ {
+			p.Facts = append(p.Facts, bulkFact(i))
+		}
+		e.Preds = append(e.Preds, p)
+	}
 	return e
 }
 
@@ -266,8 +304,52 @@ func buildStore(c Case, kind string, sh []int, safe bool) (factstore.ReadOnlyFac
 	return res, nil
 }
 
-// write saves the store; it returns the (possibly compressed) file and the plain bytes WriteTo produced.
-func write(store factstore.ReadOnlyFactStore, comp string, det bool) (file, plain []byte, err error) {
+// zstdLevels maps ZstdOpts.Level to the encoder level.
+var zstdLevels = map[int]zstd.EncoderLevel{1: zstd.SpeedFastest, 2: zstd.SpeedDefault, 3: zstd.SpeedBetterCompression, 4: zstd.SpeedBestCompression}
+
+// compressZstd compresses the plain bytes of a file with an encoder configured by zo.
+func compressZstd(plain []byte, zo ZstdOpts) ([]byte, error) {
+	level, ok := zstdLevels[zo.Level]
+	if !ok || zo.WindowLog < 10 || zo.WindowLog > 29 {
+		return nil, fmt.Errorf("malformed zstd options %+v", zo)
+	}
+	opts := []zstd.EOption{zstd.WithEncoderConcurrency(1), zstd.WithLowerEncoderMem(true), zstd.WithEncoderLevel(level), zstd.WithWindowSize(1 << zo.WindowLog),
+		zstd.WithZeroFrames(zo.ZeroFrames), zstd.WithEncoderCRC(!zo.NoCRC)}
+	if zo.Single > 0 {
+		opts = append(opts, zstd.WithSingleSegment(zo.Single == 1))
+	}
+	if !zo.Stream {
+		enc, err := zstd.NewWriter(nil, opts...)
+		if err != nil {
+			return nil, err
+		}
+		defer enc.Close()
+		return enc.EncodeAll(plain, nil), nil
+	}
+	var out bytes.Buffer
+	zw, err := zstd.NewWriter(&out, opts...)
+	if err != nil {
+		return nil, err
+	}
+	for rest := plain; len(rest) > 0; {
+		n := len(rest)
+		if zo.Chunk > 0 && zo.Chunk < n {
+			n = zo.Chunk
+		}
+		if _, err := zw.Write(rest[:n]); err != nil {
+			return nil, err
+		}
+		rest = rest[n:]
+	}
+	if err := zw.Close(); err != nil {
+		return nil, err
+	}
+	return out.Bytes(), nil
+}
+
+// write saves the store; it returns the (possibly compressed) file and the plain bytes WriteTo
+// produced. With zo (zstd only) the plain bytes are compressed afterwards by the configured encoder.
+func write(store factstore.ReadOnlyFactStore, comp string, det bool, zo *ZstdOpts) (file, plain []byte, err error) {
 	var out, raw bytes.Buffer
 	var w io.Writer = &out
 	var closer io.Closer
@@ -276,6 +358,10 @@ func write(store factstore.ReadOnlyFactStore, comp string, det bool) (file, plai
 		gz := gzip.NewWriter(&out)
 		w, closer = gz, gz
 	case "zstd":
+		if zo != nil {
+			w = io.Discard
+			break
+		}
 		zw, err := zstd.NewWriter(&out, zstd.WithEncoderConcurrency(1), zstd.WithLowerEncoderMem(true), zstd.WithEncoderLevel(zstd.SpeedFastest), zstd.WithWindowSize(1<<16))
 		if err != nil {
 			return nil, nil, err
@@ -289,6 +375,13 @@ func write(store factstore.ReadOnlyFactStore, comp string, det bool) (file, plai
 		if err := closer.Close(); err != nil {
 			return nil, nil, err
 		}
+	}
+	if comp == "zstd" && zo != nil {
+		file, err := compressZstd(raw.Bytes(), *zo)
+		if err != nil {
+			return nil, nil, fmt.Errorf("harness: zstd encoder: %v", err)
+		}
+		return file, raw.Bytes(), nil
 	}
 	return out.Bytes(), raw.Bytes(), nil
 }
@@ -406,6 +499,24 @@ func needsEscape(v val.V) bool {
 	return false
 }
 
+// isExtreme tells whether a scalar lies at the boundary of its kind's value range: a time or
+// duration in the outermost year of the int64 range, a number within 4 of an end of it, a float that
+// is subnormal or within 16 binades of the largest/smallest normal magnitude.
+func isExtreme(x val.V) bool {
+	switch x.T {
+	case val.Num:
+		n := x.Int()
+		return n < math.MinInt64+4 || n > math.MaxInt64-4
+	case val.Time, val.Dur:
+		n := x.Int()
+		return n < math.MinInt64+year || n > math.MaxInt64-year
+	case val.Float:
+		a := math.Abs(x.Flt())
+		return a != 0 && (a >= 0x1p1007 || a < 0x1p-1006)
+	}
+	return false
+}
+
 func walk(v val.V, f func(val.V)) {
 	f(v)
 	for _, e := range v.E {
@@ -476,6 +587,9 @@ func check(run *stats.Run, f stats.Failer, c Case) (v verdict) {
 					escape = true
 				}
 				walk(a, func(x val.V) {
+					if isExtreme(x) && len(a.E)+len(a.KV) > 0 {
+						labels["val:extreme-nested"] = true
+					}
 					switch x.T {
 					case val.Name:
 						if strings.Contains(x.S, "%") {
@@ -486,13 +600,32 @@ func check(run *stats.Run, f stats.Failer, c Case) (v verdict) {
 							labels["val:cr-string"] = true
 						}
 					case val.Float:
-						if fl := x.Flt(); fl == float64(int64(fl)) {
+						fl := x.Flt()
+						if fl == float64(int64(fl)) {
 							labels["val:integral-float"] = true
+						}
+						if a := math.Abs(fl); a != 0 && a < 0x1p-1022 {
+							labels["val:float-subnormal"] = true
+						} else if a >= 0x1p1007 || a != 0 && a < 0x1p-1006 {
+							labels["val:float-extreme-magnitude"] = true
+						}
+					case val.Num:
+						if n := x.Int(); n < math.MinInt64+4 || n > math.MaxInt64-4 {
+							labels["val:number-int64-edge"] = true
 						}
 					case val.Time:
 						labels["val:time"] = true
+						n := x.Int()
+						if n < math.MinInt64+year || n > math.MaxInt64-year {
+							labels["val:time-int64-edge"] = true
+						} else if n < -2019686400e9 || n > 4102444800e9 {
+							labels["val:time-outside-1906-2100"] = true
+						}
 					case val.Dur:
 						labels["val:duration"] = true
+						if n := x.Int(); n < math.MinInt64+year || n > math.MaxInt64-year {
+							labels["val:duration-int64-edge"] = true
+						}
 					case val.Bytes:
 						labels["val:bytes"] = true
 					case val.List, val.Map:
@@ -553,6 +686,9 @@ func check(run *stats.Run, f stats.Failer, c Case) (v verdict) {
 	if long {
 		labels["val:long-line"] = true
 	}
+	if c.Bulk > 0 {
+		labels["bulk:many-facts"] = true
+	}
 	labels["comp:"+c.Comp] = true
 	labels["src:"+c.Src] = true
 	labels["dst:"+c.Dst] = true
@@ -565,14 +701,50 @@ func check(run *stats.Run, f stats.Failer, c Case) (v verdict) {
 	if err != nil {
 		fail("the lazy source store cannot be set up"+errClass(err), "%v", err)
 	}
-	file, plain, err := write(src, c.Comp, c.Det)
+	file, plain, err := write(src, c.Comp, c.Det, c.Zstd)
+	if err != nil && strings.HasPrefix(err.Error(), "harness:") {
+		fail("malformed case", "%v", err)
+	}
 	if err != nil {
 		fail("WriteTo fails on a valid store"+errClass(err), "WriteTo(%s store, %s, deterministic=%v): %v", c.Src, c.Comp, c.Det, err)
 	}
 
+	if c.Comp == "zstd" && c.Zstd != nil {
+		// The harness' own stream must be a valid zstd stream of the plain bytes (judged by the default
+		// decoder of the trusted compression library) before the readers are judged with it.
+		dec, err := zstd.NewReader(nil, zstd.WithDecoderConcurrency(1))
+		if err != nil {
+			fail("malformed case", "harness: zstd decoder: %v", err)
+		}
+		back, err := dec.DecodeAll(file, nil)
+		dec.Close()
+		if err != nil || !bytes.Equal(back, plain) {
+			fail("malformed case", "harness: the stream of the configured zstd encoder %+v does not decode to the plain bytes: %v", *c.Zstd, err)
+		}
+		labels["zstd:configured-encoder"] = true
+		var h zstd.Header
+		if err := h.Decode(file); err == nil {
+			switch {
+			case h.SingleSegment:
+				labels["zstd:single-segment-frame"] = true
+			case h.WindowSize > 8<<20:
+				labels["zstd:declared-window>8MiB"] = true
+			case h.WindowSize > 1<<16:
+				labels["zstd:declared-window>64KiB"] = true
+			default:
+				labels["zstd:declared-window<=64KiB"] = true
+			}
+		}
+		if c.Zstd.Stream {
+			labels["zstd:stream-writer"] = true
+		} else {
+			labels["zstd:encode-all"] = true
+		}
+	}
+
 	// ---- deterministic bytes ---------------------------------------------------------------
 	if c.Det {
-		_, again, err := write(src, "plain", true) // only the bytes WriteTo produces matter here
+		_, again, err := write(src, "plain", true, nil) // only the bytes WriteTo produces matter here
 		if err != nil {
 			fail("WriteTo fails on a valid store"+errClass(err), "second WriteTo of the same %s store: %v", c.Src, err)
 		}
@@ -583,7 +755,7 @@ func check(run *stats.Run, f stats.Failer, c Case) (v verdict) {
 		if err != nil {
 			fail("the lazy source store cannot be set up"+errClass(err), "%v", err)
 		}
-		_, plain2, err := write(src2, "plain", true)
+		_, plain2, err := write(src2, "plain", true, nil)
 		if err != nil {
 			fail("WriteTo fails on a valid store"+errClass(err), "WriteTo(%s store, deterministic): %v", c.Src2, err)
 		}
@@ -761,8 +933,128 @@ var percentNames = []string{"/a%41", "/%", "/a%2Fb", "/100%", "/a%zz", "/x%20y",
 
 var optsAll = val.Options{MaxDepth: 2}
 
+// year is about one year in nanoseconds; the "edge" of the int64 range of times and durations is
+// the outermost year on either side (it holds the library's own sentinels ast.Time(math.MinInt64)
+// and ast.Time(math.MaxInt64) and the instants of the years 1677 and 2262).
+const year = int64(366 * 24 * 3600 * 1e9)
+
+// genEdgeInt64 draws an int64 at or near one end of the range: the extreme itself, a few units off,
+// or anywhere in the outermost year.
+func genEdgeInt64(t *rapid.T) int64 {
+	off := int64(0)
+	switch rapid.IntRange(0, 3).Draw(t, "edgeoff") {
+	case 0:
+	case 1:
+		off = rapid.Int64Range(0, 3).Draw(t, "edgesmall")
+	case 2:
+		off = rapid.Int64Range(0, year/4).Draw(t, "edgequarter")
+	default:
+		off = rapid.Int64Range(0, year).Draw(t, "edgeyear")
+	}
+	if rapid.Bool().Draw(t, "edgemin") {
+		return math.MinInt64 + off
+	}
+	return math.MaxInt64 - off
+}
+
+// genExtremeFloat draws a finite float at the extremes of magnitude: largest/smallest finite,
+// smallest normal, subnormals, and their neighbours, of either sign.
+func genExtremeFloat(t *rapid.T) float64 {
+	var f float64
+	switch rapid.IntRange(0, 5).Draw(t, "xfmode") {
+	case 0:
+		f = rapid.SampledFrom([]float64{math.MaxFloat64, math.SmallestNonzeroFloat64, 0x1p-1022, 0x1p-1022 - 0x1p-1074, 0x1p1023, 0x1p-1073}).Draw(t, "xfstock")
+	case 1: // neighbours of the largest finite value
+		f = math.Float64frombits(math.Float64bits(math.MaxFloat64) - uint64(rapid.IntRange(0, 4).Draw(t, "xfbelowmax")))
+	case 2: // any subnormal
+		f = math.Float64frombits(rapid.Uint64Range(1, 1<<52-1).Draw(t, "xfsub"))
+	case 3: // the smallest subnormals and the values around the smallest normal
+		if rapid.Bool().Draw(t, "xftiny") {
+			f = math.Float64frombits(rapid.Uint64Range(1, 8).Draw(t, "xftinybits"))
+		} else {
+			f = math.Float64frombits(uint64(int64(1<<52) + rapid.Int64Range(-4, 4).Draw(t, "xfnormbits")))
+		}
+	case 4: // huge: exponent within the top 16 binades, any mantissa
+		f = math.Float64frombits(rapid.Uint64Range(0x7ef<<52, 0x7ff<<52-1).Draw(t, "xfhuge"))
+	default: // tiny normal: exponent within the lowest 16 binades
+		f = math.Float64frombits(rapid.Uint64Range(1<<52, 0x011<<52-1).Draw(t, "xfsmallnorm"))
+	}
+	if rapid.Bool().Draw(t, "xfneg") {
+		f = -f
+	}
+	return f
+}
+
+// genExtreme draws a constant at the boundary of its kind's value range - a time, a duration or a
+// number at/near math.MinInt64 or math.MaxInt64, a time anywhere in the int64-nanosecond range, a
+// float of extreme magnitude - bare or nested inside a list, pair, map (as key and as value) or struct.
+func genExtreme(t *rapid.T) val.V {
+	var scalar func() val.V
+	scalar = func() val.V {
+		switch rapid.IntRange(0, 6).Draw(t, "xkind") {
+		case 0, 1:
+			return val.T(genEdgeInt64(t))
+		case 2: // a time anywhere in the representable range (years 1677-2262), outside the usual 1906-2100
+			y := rapid.SampledFrom([]int{1678, 2261, 1700, 2200, 1800, 2101, 1905, 1850, 2150, 1750}).Draw(t, "xyear")
+			return val.T(time.Date(y, 1, 1, 0, 0, 0, 0, time.UTC).UnixNano() + rapid.Int64Range(0, year-1).Draw(t, "xinyear"))
+		case 3:
+			return val.D(genEdgeInt64(t))
+		case 4:
+			return val.I(genEdgeInt64(t))
+		default:
+			return val.F(genExtremeFloat(t))
+		}
+	}
+	var nest func(depth int) val.V
+	nest = func(depth int) val.V {
+		if depth <= 0 || rapid.IntRange(0, 9).Draw(t, "xleaf") < 5 {
+			return scalar()
+		}
+		other := func() val.V {
+			if rapid.Bool().Draw(t, "xother") {
+				return val.Gen(val.Options{MaxDepth: 1}).Draw(t, "xplain")
+			}
+			return nest(depth - 1)
+		}
+		switch rapid.IntRange(0, 4).Draw(t, "xshape") {
+		case 0:
+			if rapid.Bool().Draw(t, "xfirst") {
+				return val.P(nest(depth-1), other())
+			}
+			return val.P(other(), nest(depth-1))
+		case 1:
+			es := []val.V{nest(depth - 1)}
+			for n := rapid.IntRange(0, 2).Draw(t, "xllen"); n > 0; n-- {
+				es = append(es, other())
+			}
+			if len(es) > 1 && rapid.Bool().Draw(t, "xlast") {
+				es[0], es[len(es)-1] = es[len(es)-1], es[0]
+			}
+			return val.L(es...)
+		case 2: // map value
+			return val.M([2]val.V{val.Gen(val.Options{SimpleOnly: true}).Draw(t, "xmkey"), nest(depth - 1)})
+		case 3: // map key (and, half of the time, a second entry)
+			k := nest(depth - 1)
+			kv := [][2]val.V{{k, other()}}
+			if k2 := nest(depth - 1); k2.Key() != k.Key() && rapid.Bool().Draw(t, "xsecond") {
+				kv = append(kv, [2]val.V{k2, other()})
+			}
+			return val.M(kv...)
+		default:
+			kv := [][2]val.V{{val.N(rapid.SampledFrom([]string{"/a", "/b", "/t", "/x/y"}).Draw(t, "xlabel")), nest(depth - 1)}}
+			if rapid.Bool().Draw(t, "xsfield") {
+				kv = append(kv, [2]val.V{val.N("/other"), other()})
+			}
+			return val.St(kv...)
+		}
+	}
+	return nest(2)
+}
+
 func genValue(t *rapid.T) val.V {
-	switch rapid.IntRange(0, 11).Draw(t, "vmode") {
+	switch rapid.IntRange(0, 13).Draw(t, "vmode") {
+	case 12, 13:
+		return genExtreme(t)
 	case 0:
 		return val.N(rapid.SampledFrom(percentNames).Draw(t, "pname"))
 	case 1:
@@ -819,6 +1111,36 @@ func genCase(t *rapid.T) Case {
 	}
 	c.Dst = rapid.SampledFrom(dstKinds).Draw(t, "dst")
 
+	// Rarely (about 1 case in 100: it costs a large window on both sides) a zstd stream of another
+	// encoder configuration - window 1 KiB..32 MiB, every level, streaming Writer or EncodeAll,
+	// single-segment or not, zero frames, checksum - over a file of more than one 128 KiB block (one
+	// long line or many facts), so that the frame header is a real streaming header that declares the
+	// configured window. Every GetFacts/Contains of the lazy view opens a decoder that allocates twice the
+	// declared window, so these cases have at most 2 predicates (and the bulk one), 1 query and 1 probe.
+	// (rapid draws the ends of a range more often than the middle: == 24 is about 1 in 21.)
+	if c.Comp == "zstd" && rapid.IntRange(0, 24).Draw(t, "zstdalt") == 24 {
+		zo := ZstdOpts{}
+		zo.WindowLog = rapid.SampledFrom([]int{24, 24, 10, 17, 13, 25, 16, 20, 23, 24}).Draw(t, "zwindow")
+		zo.Level = rapid.SampledFrom([]int{1, 2, 3, 1, 4, 2, 3, 1, 2}).Draw(t, "zlevel") // 4 (64 MiB of tables) is the rarest
+		zo.Stream = rapid.IntRange(0, 2).Draw(t, "zstream") < 2
+		if zo.Stream {
+			zo.Chunk = rapid.SampledFrom([]int{0, 0, 1000, 4096, 65536, 131072, 200000}).Draw(t, "zchunk")
+		} else {
+			zo.Single = rapid.IntRange(0, 2).Draw(t, "zsingle")
+		}
+		zo.ZeroFrames = rapid.Bool().Draw(t, "zzero")
+		zo.NoCRC = rapid.Bool().Draw(t, "znocrc")
+		c.Zstd = &zo
+		switch rapid.IntRange(0, 3).Draw(t, "zcontent") {
+		case 2:
+			// a small file: the encoder may write a single-segment frame
+		case 1:
+			c.Bulk = rapid.IntRange(900, 1500).Draw(t, "bulk")
+		default:
+			c.Long = rapid.IntRange(135000, 400000).Draw(t, "zlonglen")
+		}
+	}
+
 	npool := rapid.IntRange(2, 7).Draw(t, "npool")
 	pool := make([]val.V, npool)
 	for i := range pool {
@@ -832,6 +1154,9 @@ func genCase(t *rapid.T) Case {
 	}
 
 	np := rapid.IntRange(1, 6).Draw(t, "npreds")
+	if c.Zstd != nil && np > 2 {
+		np = 2
+	}
 	used := map[ast.PredicateSym]bool{}
 	nfacts := 0
 	for i := 0; i < np; i++ {
@@ -898,6 +1223,9 @@ func genCase(t *rapid.T) Case {
 		}
 	}
 	nq := rapid.IntRange(1, 4).Draw(t, "nqueries")
+	if c.Zstd != nil {
+		nq = 1
+	}
 	for k := 0; k < nq; k++ {
 		q := Query{}
 		switch w := rapid.IntRange(0, 9).Draw(t, "qwhich"); {
@@ -938,10 +1266,13 @@ func genCase(t *rapid.T) Case {
 		c.Queries = append(c.Queries, q)
 	}
 	// Rarely a constant whose printed form is longer than 64 KiB (the default token limit of bufio.Scanner).
-	if rapid.IntRange(0, 59).Draw(t, "long") == 59 {
+	if rapid.IntRange(0, 59).Draw(t, "long") == 59 && c.Zstd == nil {
 		c.Long = rapid.IntRange(60000, 70000).Draw(t, "longlen")
 	}
 	nprobe := rapid.IntRange(0, 3).Draw(t, "nprobes")
+	if c.Zstd != nil && nprobe > 1 {
+		nprobe = 1
+	}
 	for k := 0; k < nprobe; k++ {
 		pi := rapid.IntRange(0, np-1).Draw(t, "ppred")
 		p := c.Preds[pi]
@@ -971,6 +1302,10 @@ func genCase(t *rapid.T) Case {
 func TestC19(t *testing.T) {
 	run := stats.Begin("C19", "TestC19")
 	defer run.Finish(t)
+	// The zstd decoders of the large-window cases allocate 32-64 MiB per opened reader; with the default
+	// GC target these buffers are handed back to the OS and faulted in again on every call (measured:
+	// 3x the run time). A larger GC target lets the runtime recycle them. No effect on any verdict.
+	defer debug.SetGCPercent(debug.SetGCPercent(400))
 	rapid.Check(t, func(rt *rapid.T) {
 		c := genCase(rt)
 		run.Current(c)
